@@ -568,6 +568,8 @@ func init() {
 		lr := elin.CheckLattice(run, p, "LAT")
 		run.Sample(map[string]any{"LAT functions": lr.Functions, "LAT obligations": lr.Obligations, "LAT discharged": lr.Discharged})
 		run.NotDecided = append(run.NotDecided, elin.LatticeNotDecided...)
+		pw := run.Rule("PORTABLE-width", "no 64-bit integer is converted to a platform-sized integer (32-bit targets would drop the upper half)", 450).RequireControl(1)
+		checkPortableWidth(p, pw)
 		pr := run.Rule("DT-pornin", "the ABGLSV-Pornin prologues move the sign of d1 into b and C together and hand the sign of d0 on; the inner loops pair each digit array with its table, sign and NAF width", 3000)
 		genericOps := []string{"completedPoint.Double", "completedPoint.AddEdwardsProjectiveNiels", "completedPoint.SubEdwardsProjectiveNiels", "completedPoint.AddCompletedAffineNiels", "completedPoint.SubCompletedAffineNiels",
 			"projectiveNielsPointNafLookupTable.Lookup", "affineNielsPointNafLookupTable.Lookup", "EdwardsPoint.setCompleted", "projectivePoint.setCompleted", "EdwardsPoint.setProjective", "projectivePoint.Identity"}
